@@ -31,6 +31,8 @@ class State:
         self.crash_tear = None
         self.crash_when = 'before'
         self.interrupted = None
+        self.werr_limit = None
+        self.werr_path = None
         self.err_at = None
         self.err_no = None
         self.rerr_at = None
@@ -111,6 +113,13 @@ def _mutating(kind, path, extra=None):
             os._exit(CRASH_EXIT)
         ST.crash_at -= 1
     if ST.err_at is not None:
+        if ST.err_at == 0 and ST.werr_limit is not None and kind == 'wopen':
+            # the disk fills up / fails WHILE this file is written: the open succeeds, a write fails after `limit` units
+            ST.err_at = None
+            ST.werr_path = path
+            ST.fs.append([kind, rel])
+            ST.last_wopen = rel
+            return
         if ST.err_at == 0:
             ST.err_at = None
             ST.fired.append(['diskerr', kind, rel])
@@ -177,6 +186,66 @@ def _hook(event, args):
         _mutating(kind, p)
     finally:
         ST.in_hook = False
+
+
+class _WErrFile:
+    """file object whose writes fail once `limit` units (bytes / characters) were written: a short write, then the error"""
+
+    def __init__(self, f, limit, err_no, path, rel):
+        self.__dict__.update(_f=f, _limit=limit, _written=0, _err_no=err_no, _path=path, _rel=rel, _failed=False)
+
+    def write(self, data):
+        d = self.__dict__
+        n = len(data)
+        room = d['_limit'] - d['_written']
+        if n > room:
+            if room > 0:
+                d['_f'].write(data[:room])
+                d['_written'] = d['_limit']
+            try:
+                d['_f'].flush()
+            except Exception:
+                pass
+            if not d['_failed']:
+                d['_failed'] = True
+                ST.fired.append(['diskerr', 'write', d['_rel']])
+                ST.fs.append(['!write', d['_rel']])
+            raise OSError(d['_err_no'], os.strerror(d['_err_no']), d['_path'])
+        d['_written'] += n
+        return d['_f'].write(data)
+
+    def writelines(self, lines):
+        for ln in lines:
+            self.write(ln)
+
+    def __getattr__(self, a):
+        return getattr(self.__dict__['_f'], a)
+
+    def __enter__(self):
+        return self
+
+    def __exit__(self, *a):
+        self.__dict__['_f'].close()
+        return False
+
+    def __iter__(self):
+        return iter(self.__dict__['_f'])
+
+
+def install_open_seam():
+    import builtins
+    real_open = builtins.open
+
+    def _open(file, mode='r', *a, **k):
+        f = real_open(file, mode, *a, **k)
+        if ST.werr_path is not None and ST.active and not isinstance(file, int):
+            p = _abspath(file)
+            if p == ST.werr_path and isinstance(mode, str) and any(c in mode for c in 'wax+'):
+                ST.werr_path = None
+                return _WErrFile(f, ST.werr_limit, ST.err_no, p, p[len(ST.store):])
+        return f
+    builtins.open = _open
+    io.open = _open
 
 
 # ------------------------------------------------------------------------------------------------- clock
@@ -1067,6 +1136,7 @@ def run_process(job, out_fd):
     pr.classes = build_classes(job['world'])
     pr.renderer = Renderer(job['world'], pr.classes, pr.cfgdir, pr.stores / 'main')
     sys.addaudithook(_hook)
+    install_open_seam()
     cover = None
     if os.environ.get('TCSIM_COVER'):
         # diagnostic only: which lines of taskchain does the simulation execute
@@ -1094,6 +1164,8 @@ def run_process(job, out_fd):
         ST.err_at = e['k'] if e and not e.get('read') else None
         ST.rerr_at = e['k'] if e and e.get('read') else None
         ST.err_no = getattr(errno, e['errno']) if e else None
+        ST.werr_limit = e.get('wlimit') if e else None
+        ST.werr_path = None
         clock0 = ST.clock.base + ST.clock.ticks
         ST.active = True
         try:
@@ -1116,6 +1188,7 @@ def run_process(job, out_fd):
         sys.setprofile(None)
         ST.err_at = None
         ST.rerr_at = None
+        ST.werr_path = None
         _emit({'i': op['i'], 'res': res, 'inv': ST.inv, 'fs': ST.fs, 'fired': ST.fired, 'clock': [clock0, ST.clock.base + ST.clock.ticks]})
     if cover is not None:
         sys.settrace(None)
